@@ -699,3 +699,167 @@ def c13_call(rp):
         if after != before or _state(m) != mstate:
             return True, f"{desc} -> {got or 'returned'} but a rating or the model was modified"
     return False, f"{desc} -> {got or 'accepted'} as expected"
+
+
+# ---------------------------------------------------------------- C02 / C03
+def _vec(v):
+    return None if v is None else [num(x) for x in v]
+
+
+@checker("c02_rate")
+def c02_rate(rp):
+    name = rp["model"]
+    m = mk_model(name, rp["params"], limit_sigma=bool(rp.get("limit", False)))
+    g = mk_game(name, rp["game"])
+    flat = [p for t in g for p in t]
+    before = [(p.id, p.name) for p in flat]
+    res = m.rate(g, ranks=_vec(rp.get("ranks")), scores=_vec(rp.get("scores")))
+    if rp.get("clause") == "canary":
+        # wrong claim: the result lists the teams in rank order
+        r = _vec(rp.get("ranks")) or [-s for s in _vec(rp.get("scores"))]
+        order = sorted(range(len(g)), key=lambda i: r[i])
+        ok = all(res[k][0] is g[order[k]][0] for k in range(len(g)))
+        return (not ok), "result is in input order, not in rank order"
+    if len(res) != len(g) or any(len(a) != len(b) for a, b in zip(res, g)):
+        return True, f"{name}.rate: result shape {[len(t) for t in res]} != input shape {[len(t) for t in g]}"
+    for i, (tr, tg) in enumerate(zip(res, g)):
+        for j, (a, b) in enumerate(zip(tr, tg)):
+            if a is not b:
+                who = [(x, y) for x, t in enumerate(g) for y, p in enumerate(t) if p is a]
+                return True, f"{name}.rate(ranks={_vec(rp.get('ranks'))}, scores={_vec(rp.get('scores'))}): result[{i}][{j}] is the player passed at {who or 'nowhere'}"
+    if [(p.id, p.name) for p in flat] != before:
+        return True, "a player's id or name changed"
+    if len({id(p) for t in res for p in t}) != len(flat):
+        return True, "a player appears twice in the result"
+    return False, "result corresponds to the input position by position"
+
+
+@searcher("c02_rate")
+def c02_rate_search(rp, seed):
+    rnd = random.Random(seed)
+    n = len(rp["game"])
+    for _ in range(300):
+        vec = [enc(rnd.choice([0, 1, 2, 3, 1.5, -2, 2.0])) for _ in range(n)]
+        r2 = dict(rp, game=rand_game(rnd, [len(x) for x in rp["game"]]))
+        r2["params"] = dict(mu=enc(25.0), sigma=enc(25 / 3), beta=enc(25 / 6), kappa=enc(1e-4), tau=enc(25 / 300))
+        if rp.get("ranks") is not None:
+            r2["ranks"] = vec
+        elif rp.get("scores") is not None:
+            r2["scores"] = vec
+        try:
+            bad, msg = c02_rate(r2)
+        except Exception as e:  # noqa: BLE001
+            continue
+        if bad:
+            return r2, msg
+    return None
+
+
+@checker("c02_unwind")
+def c02_unwind(rp):
+    W = wl_common()
+    keys = _vec(rp["keys"])
+    xs = list(range(100, 100 + len(keys)))
+    s, tenet = W._unwind(keys, xs)
+    back = W._unwind(tenet, s)[0]
+    if rp.get("clause") == "canary":
+        return s != xs, "sorting changes the order (canary: claimed identity)"
+    ok_sorted = all(keys[xs.index(a)] <= keys[xs.index(b)] for a, b in zip(s, s[1:]))
+    ok_stable = all(not (keys[xs.index(a)] == keys[xs.index(b)] and xs.index(a) > xs.index(b)) for a, b in zip(s, s[1:]))
+    ok_tenet = [xs[i] for i in tenet] == s
+    return not (back == xs and ok_sorted and ok_stable and ok_tenet and sorted(s) == xs), f"_unwind({keys}, {xs}) -> {s}, {tenet}; unwound back -> {back}"
+
+
+@searcher("c02_unwind")
+def c02_unwind_search(rp, seed):
+    rnd = random.Random(seed)
+    n = len(rp["keys"])
+    for _ in range(500):
+        r2 = dict(rp, keys=[enc(rnd.choice([0, 1, 2, 1.0, -1, 2.5, True])) for _ in range(n)])
+        bad, msg = c02_unwind(r2)
+        if bad:
+            return r2, msg
+    return None
+
+
+@checker("c03_rankings")
+def c03_rankings(rp):
+    name = rp["model"]
+    m = mk_model(name, None)
+    n = rp["n"]
+    gm = [[m.rating()] for _ in range(n)]
+    ranks = _vec(rp.get("ranks"))
+    out = m._calculate_rankings(gm, ranks) if ranks is not None else m._calculate_rankings(gm)
+    if rp.get("clause") == "canary":
+        return out != list(range(n)), f"_calculate_rankings(ranks={ranks}) -> {out} (canary: claimed positions)"
+    if ranks is None:
+        return out != list(range(n)), f"_calculate_rankings() -> {out}"
+    for i in range(n):
+        for j in range(n):
+            if (out[i] == out[j]) != (ranks[i] == ranks[j]) or (out[i] < out[j]) != (ranks[i] < ranks[j]):
+                return True, f"{name}._calculate_rankings(ranks={ranks!r}) -> {out}: positions {i},{j} have rank values {ranks[i]!r},{ranks[j]!r}"
+    return False, f"_calculate_rankings(ranks={ranks}) -> {out}"
+
+
+@searcher("c03_rankings")
+def c03_rankings_search(rp, seed):
+    rnd = random.Random(seed)
+    n = rp["n"]
+    for _ in range(2000):
+        v = sorted(rnd.choice([0, 1, 2, 1.0, 2.0, -1, 1.5, True, 3]) for _ in range(n))
+        r2 = dict(rp, ranks=[enc(x) for x in v])
+        bad, msg = c03_rankings(r2)
+        if bad:
+            return r2, msg
+    return None
+
+
+@checker("c03_order")
+def c03_order(rp):
+    """two presentations of the same outcome must give identical results"""
+    name = rp["model"]
+    lim = bool(rp.get("limit", False))
+    ka = {k: _vec(rp["a"].get(k)) for k in ("ranks", "scores")}
+    kb = {k: _vec(rp["b"].get(k)) for k in ("ranks", "scores")}
+    a = values(mk_model(name, rp["params"], limit_sigma=lim).rate(mk_game(name, rp["game"]), **ka))
+    b = values(mk_model(name, rp["params"], limit_sigma=lim).rate(mk_game(name, rp["game"]), **kb))
+    return a != b, f"{name}.rate({ka}) -> {str(a)[:90]} ; rate({kb}) -> {str(b)[:90]}"
+
+
+@searcher("c03_order")
+def c03_order_search(rp, seed):
+    rnd = random.Random(seed)
+    n = len(rp["game"])
+    form = rp.get("form", "relabel")
+    for _ in range(400):
+        r2 = dict(rp, game=rand_game(rnd, [len(x) for x in rp["game"]]))
+        r2["params"] = dict(mu=enc(25.0), sigma=enc(25 / 3), beta=enc(25 / 6), kappa=enc(1e-4), tau=enc(25 / 300))
+        base = [rnd.choice([0, 1, 2, 3]) for _ in range(n)]
+        if form == "relabel":
+            f = rnd.choice([lambda x: float(x), lambda x: 2 * x - 3, lambda x: x * 1.5 - 1, lambda x: x / 3 + 1, lambda x: x * 10 ** 6,
+                            lambda x: (x if x != 1 else 1.0)])
+            r2["a"] = {"ranks": [enc(x) for x in base]}
+            r2["b"] = {"ranks": [enc(f(x)) for x in base]}
+        elif form == "scores":
+            sc = [rnd.choice([0, 1, 2.5, -1, 3]) for _ in range(n)]
+            r2["a"] = {"scores": [enc(x) for x in sc]}
+            r2["b"] = {"ranks": [enc(-x) for x in sc]}
+        else:
+            r2["a"] = {}
+            r2["b"] = {"ranks": [enc(x) for x in range(n)]}
+        try:
+            bad, msg = c03_order(r2)
+        except Exception:  # noqa: BLE001
+            continue
+        if bad:
+            return r2, msg
+    return None
+
+
+@checker("c03_neg")
+def c03_neg(rp):
+    C = common()
+    x = num(rp["x"])
+    got = C._unary_minus(x)
+    want = -x if rp.get("clause") != "canary" else abs(x)
+    return not _same(got, want), f"_unary_minus({x!r}) -> {got!r}"
